@@ -28,10 +28,10 @@ var wireOracle = []wireRow{
 	{"gtfs.TripID.RouteID", []string{"TripDescriptor.RouteId"}, nil, nil},
 	{"gtfs.TripID.DirectionID", []string{"TripDescriptor.DirectionId"}, []string{"(*uint32)→(gtfs.DirectionID)"}, nil},
 	{"gtfs.TripID.ScheduleRelationship", []string{"TripDescriptor.ScheduleRelationship"}, nil, nil},
-	{"gtfs.TripID.HasStartTime", []string{"TripDescriptor.StartTime"}, []string{"(*string)→(bool,time.Duration)"}, []string{"#0"}},
-	{"gtfs.TripID.StartTime", []string{"TripDescriptor.StartTime"}, []string{"(*string)→(bool,time.Duration)"}, []string{"#1"}},
-	{"gtfs.TripID.HasStartDate", []string{"TripDescriptor.StartDate"}, []string{"(*string)→(bool,time.Time)", clsZone}, []string{"#0"}},
-	{"gtfs.TripID.StartDate", []string{"TripDescriptor.StartDate"}, []string{"(*string)→(bool,time.Time)", clsZone}, []string{"#1", "{" + clsZone + "}("}},
+	{"gtfs.TripID.HasStartTime", []string{"TripDescriptor.StartTime"}, []string{"(*string)→(bool,time.Duration)"}, nil},
+	{"gtfs.TripID.StartTime", []string{"TripDescriptor.StartTime"}, []string{"(*string)→(bool,time.Duration)"}, nil},
+	{"gtfs.TripID.HasStartDate", []string{"TripDescriptor.StartDate"}, []string{"(*string)→(bool,time.Time)", clsZone}, nil},
+	{"gtfs.TripID.StartDate", []string{"TripDescriptor.StartDate"}, []string{"(*string)→(bool,time.Time)", clsZone}, []string{"{" + clsZone + "}("}},
 	{"gtfs.StopTimeUpdate.StopSequence", []string{"TripUpdate_StopTimeUpdate.StopSequence"}, nil, nil},
 	{"gtfs.StopTimeUpdate.StopID", []string{"TripUpdate_StopTimeUpdate.StopId"}, nil, nil},
 	{"gtfs.StopTimeUpdate.Arrival", []string{"TripUpdate_StopTimeUpdate.Arrival"}, []string{"(*proto.TripUpdate_StopTimeEvent)→(*gtfs.StopTimeEvent)"}, nil},
@@ -109,11 +109,23 @@ func matchWire(b *binder, expr string, row wireRow) string {
 	if strings.Join(leaves, ",") != strings.Join(want, ",") {
 		return fmt.Sprintf("wire field(s) %v reach it; gtfs-realtime.proto binds it to %v", leaves, want)
 	}
+	allowedCalls := row.calls
+	if strings.Contains(expr, "=>{") {
+		for _, a := range row.calls {
+			if a == "(*uint64)→(*time.Time)" {
+				// the optional-timestamp converter spelled out: what it does is time.Unix(..).In(zone)
+				allowedCalls = append(append([]string{}, row.calls...), "time.Unix", "time.Time.In")
+			}
+		}
+	}
 	for _, cl := range callsOf(expr) {
 		if b.classOf[cl] == clsZone {
 			continue // the zone helper only supplies context (which zone), checked by the ZONE rules
 		}
-		if !b.classAllowed(cl, row.calls) {
+		if !b.classAllowed(cl, allowedCalls) {
+			if bodyShown(expr, cl) {
+				continue // a helper of the module whose result is spelled out next to the call: the body is what is matched
+			}
 			return "value passes through " + cl + " " + b.classOf[cl] + ", which is not an allowed transformer for this field"
 		}
 	}
@@ -123,6 +135,41 @@ func matchWire(b *binder, expr string, row wireRow) string {
 		}
 	}
 	return ""
+}
+
+// bodyShown: every call of cl in expr is rendered as cl(args)=>{body}.
+func bodyShown(expr, cl string) bool {
+	n := 0
+	for from := 0; ; {
+		i := strings.Index(expr[from:], cl+"(")
+		if i < 0 {
+			break
+		}
+		i += from
+		from = i + len(cl) + 1
+		if i > 0 {
+			if ch := expr[i-1]; ch == '_' || ch == '.' || ch == '$' || (ch >= '0' && ch <= '9') || (ch >= 'a' && ch <= 'z') || (ch >= 'A' && ch <= 'Z') {
+				continue
+			}
+		}
+		depth := 0
+		j := i + len(cl)
+		for ; j < len(expr); j++ {
+			if expr[j] == '(' {
+				depth++
+			} else if expr[j] == ')' {
+				depth--
+				if depth == 0 {
+					break
+				}
+			}
+		}
+		if j >= len(expr) || !strings.HasPrefix(expr[j+1:], "=>{") {
+			return false
+		}
+		n++
+	}
+	return n > 0
 }
 
 func realtimeFns(c *Ctx) []*ssa.Function {
@@ -216,6 +263,24 @@ func runWireTable(c *Ctx) {
 					if e3 := b.bindInContextT(fs.fn, fs.store.Val, within, 0, ""); e3 != expr && matchWire(b, e3, r) == "" {
 						expr, why = e3, ""
 					}
+				}
+			}
+			timeRow := false
+			for _, a := range r.calls {
+				if a == "time.Unix" || a == "(*uint64)→(*time.Time)" {
+					timeRow = true
+				}
+			}
+			if why != "" && timeRow {
+				// a small helper of the module between the wire field and the stored value (a method of the options
+				// that converts a timestamp in their zone): match what it returns in terms of its arguments. Only for
+				// the rows of instants, whose conversion is pinned down by the ZONE and UNITS rules (time.Unix is handed
+				// the wire number and 0, the result is put in the options' zone, absent stays absent); everywhere else a
+				// helper of an unknown class stays a violation
+				bb := newBinder(c)
+				bb.showBodies = true
+				if e4 := bb.bind(fs.store.Val); e4 != expr && strings.Contains(e4, "=>{") && matchWire(bb, e4, r) == "" {
+					expr, why = e4, ""
 				}
 			}
 			c.Check(why == "", "A3", fname, key, p.ipos(fs.store), key+" <- "+clip(expr, 120), why+" (expression: "+clip(expr, 200)+")")
@@ -473,18 +538,23 @@ func runUnits(c *Ctx) {
 			if !isRet || len(ret.Results) != 2 {
 				continue
 			}
-			p0, isPhi0 := ret.Results[0].(*ssa.Phi)
-			p1, isPhi1 := ret.Results[1].(*ssa.Phi)
+			// the flag is the boolean result, whichever position it has
+			fi, di := 0, 1
+			if shortType(f.Signature.Results().At(1).Type()) == "bool" && shortType(f.Signature.Results().At(0).Type()) != "bool" {
+				fi, di = 1, 0
+			}
+			p0, isPhi0 := ret.Results[fi].(*ssa.Phi)
+			p1, isPhi1 := ret.Results[di].(*ssa.Phi)
 			if isPhi0 && p0.Block() == blk {
 				for i, e := range p0.Edges {
-					dv := ret.Results[1]
+					dv := ret.Results[di]
 					if isPhi1 && p1.Block() == blk {
 						dv = p1.Edges[i]
 					}
 					pairs = append(pairs, pair{e, dv})
 				}
 			} else {
-				pairs = append(pairs, pair{ret.Results[0], ret.Results[1]})
+				pairs = append(pairs, pair{ret.Results[fi], ret.Results[di]})
 			}
 		}
 		for _, pr := range pairs {
@@ -670,6 +740,15 @@ func checkNilPreserving(c *Ctx, f *ssa.Function) {
 		return
 	}
 	pn := f.Params[0].Name()
+	for _, prm := range f.Params {
+		// the argument that is converted: not the options, the zone or the extension the converter is a method of / is handed
+		switch typeName(prm.Type()) {
+		case "gtfs.ParseRealtimeOptions", "time.Location", "extensions.Extension":
+			continue
+		}
+		pn = prm.Name()
+		break
+	}
 	nilIn, ok := false, true
 	why := ""
 	for _, r := range tb.rows {
@@ -843,7 +922,15 @@ func extraRejections(c *Ctx, f *ssa.Function, flagIdx int, depth int) string {
 			switch x := cond.(type) {
 			case *ssa.BinOp:
 				if isNilConst(x.Y) || isNilConst(x.X) {
-					continue // presence of the argument / of the match
+					other := x.X
+					if isNilConst(x.X) {
+						other = x.Y
+					}
+					if presenceOperand(other) {
+						continue // presence of the argument / of the match
+					}
+					bad = "the nil test at " + p.ipos(x) + " (of something that is neither the argument nor the pattern match: a parser with rules of its own decides)"
+					break
 				}
 				bad = "the comparison at " + p.ipos(x)
 			case *ssa.Extract:
@@ -879,6 +966,45 @@ func extraRejections(c *Ctx, f *ssa.Function, flagIdx int, depth int) string {
 		}
 	})
 	return bad
+}
+
+// presenceOperand: the operand of a nil test that asks "is there a value" / "did the pattern match": a parameter (or
+// its spill), the result of a regexp method, or the error of a strconv conversion of a matched group.
+func presenceOperand(v ssa.Value) bool {
+	for i := 0; i < 6; i++ {
+		switch x := v.(type) {
+		case *ssa.Parameter:
+			return true
+		case *ssa.UnOp:
+			if x.Op == token.MUL {
+				if al, isAlloc := x.X.(*ssa.Alloc); isAlloc {
+					for _, r := range *al.Referrers() {
+						if st, isSt := r.(*ssa.Store); isSt && st.Addr == ssa.Value(al) {
+							if _, isParam := st.Val.(*ssa.Parameter); isParam {
+								return true
+							}
+						}
+					}
+				}
+			}
+			return false
+		case *ssa.Extract:
+			v = x.Tuple
+		case *ssa.Phi:
+			for _, e := range x.Edges {
+				if !presenceOperand(e) {
+					return false
+				}
+			}
+			return true
+		case *ssa.Call:
+			name := calleeName(x)
+			return strings.HasPrefix(name, "(*regexp.Regexp).") || strings.HasPrefix(name, "strconv.")
+		default:
+			return false
+		}
+	}
+	return false
 }
 
 // runStartAcceptance: see the comment inside; shared by C02 (UNITS) and the properties that rely on the trip
@@ -919,4 +1045,131 @@ func sliceElemName(t types.Type) string {
 		elem = "*" + elem
 	}
 	return elem
+}
+
+// runPlainGetters: the nil-safe getters of the realtime types (Get<Field> on *T, T a struct with a pointer field
+// <Field>) are what the journal, the hasher and the callers of the library read the parsed message through. Each
+// answers the value its field points to, or the zero value when there is none, and writes nothing: a getter that
+// fills in parts of the answer from elsewhere, or stores into its receiver, changes what every reader of the field
+// sees without the parser having changed.
+func runPlainGetters(c *Ctx, rule string) {
+	p := c.P
+	n := 0
+	for _, fn := range p.ModFns {
+		if fn.Signature.Recv() == nil || len(fn.Blocks) == 0 || len(fn.Params) != 1 || fn.Signature.Results().Len() != 1 || !strings.HasPrefix(fn.Name(), "Get") || fnPkgPath(fn) != pkgPathOf("gtfs") {
+			continue
+		}
+		pt, isPtr := fn.Signature.Recv().Type().Underlying().(*types.Pointer)
+		if !isPtr {
+			continue
+		}
+		st, isStruct := pt.Elem().Underlying().(*types.Struct)
+		if !isStruct {
+			continue
+		}
+		fieldIdx := -1
+		for i := 0; i < st.NumFields(); i++ {
+			if st.Field(i).Name() == strings.TrimPrefix(fn.Name(), "Get") {
+				fieldIdx = i
+			}
+		}
+		if fieldIdx < 0 {
+			continue
+		}
+		fpt, fieldIsPtr := st.Field(fieldIdx).Type().Underlying().(*types.Pointer)
+		if !fieldIsPtr || !types.Identical(fpt.Elem(), fn.Signature.Results().At(0).Type()) {
+			continue
+		}
+		n++
+		recv := fn.Params[0]
+		bad := ""
+		for _, b := range fn.Blocks {
+			for _, in := range b.Instrs {
+				switch x := in.(type) {
+				case *ssa.Store:
+					root := x.Addr
+					for {
+						if fa, ok := root.(*ssa.FieldAddr); ok {
+							root = fa.X
+							continue
+						}
+						if ia, ok := root.(*ssa.IndexAddr); ok {
+							root = ia.X
+							continue
+						}
+						break
+					}
+					if al, isAlloc := root.(*ssa.Alloc); isAlloc && !al.Heap {
+						if root == x.Addr {
+							continue // a spilled local
+						}
+					}
+					if bad == "" {
+						bad = "it stores at " + p.ipos(x)
+					}
+				case *ssa.MapUpdate:
+					if bad == "" {
+						bad = "it updates a map at " + p.ipos(x)
+					}
+				case *ssa.Call:
+					if bad == "" {
+						bad = "it calls " + calleeName(x) + " at " + p.ipos(x)
+					}
+				}
+			}
+		}
+		seen := map[ssa.Value]bool{}
+		var leaf func(v ssa.Value)
+		leaf = func(v ssa.Value) {
+			if seen[v] || bad != "" {
+				return
+			}
+			seen[v] = true
+			switch x := v.(type) {
+			case *ssa.Const:
+			case *ssa.Phi:
+				for _, e := range x.Edges {
+					leaf(e)
+				}
+			case *ssa.UnOp:
+				if x.Op != token.MUL {
+					bad = "it answers " + x.String()
+					return
+				}
+				switch a := x.X.(type) {
+				case *ssa.Alloc:
+					// the zero value: a composite literal with no stores
+					for _, r := range *a.Referrers() {
+						if _, isLoad := r.(*ssa.UnOp); isLoad {
+							continue
+						}
+						if _, isDbg := r.(*ssa.DebugRef); isDbg {
+							continue
+						}
+						bad = "the value it answers when the field is nil is not the zero value (" + r.String() + " at " + p.ipos(r) + ")"
+						return
+					}
+				case *ssa.UnOp:
+					fa, isFA := a.X.(*ssa.FieldAddr)
+					if a.Op != token.MUL || !isFA || fa.X != ssa.Value(recv) || fa.Field != fieldIdx {
+						bad = "it answers " + x.String() + " at " + p.ipos(x) + ", which is not what the field points to"
+					}
+				default:
+					bad = "it answers " + x.String() + " at " + p.ipos(x)
+				}
+			default:
+				bad = "it answers " + v.String()
+				if in, isIn := v.(ssa.Instruction); isIn {
+					bad += " at " + p.ipos(in)
+				}
+			}
+		}
+		for _, b := range fn.Blocks {
+			if ret, isRet := b.Instrs[len(b.Instrs)-1].(*ssa.Return); isRet {
+				leaf(ret.Results[0])
+			}
+		}
+		c.Check(bad == "", rule, shortName(fn), "the getter answers what its field points to, or the zero value, and writes nothing", p.pos(fn.Pos()), "every answer is *"+st.Field(fieldIdx).Name()+" of the receiver or the zero value; no store, map update or call", bad+": readers of the parsed message (the journal, the hasher) see something else than what the parser stored")
+	}
+	c.Stats[rule+" getters"] = n
 }
